@@ -1,5 +1,5 @@
 ---- MODULE MC_Cover ----
 (* Behaviours of ArcSwapImpl for replay on the real code: simulation mode, full history printed at the end. *)
 EXTENDS MC_Impl, Json
-PrintDone == AllDone => PrintT(<<"HIST", ToJson(hist)>>)
+PrintDone == AllDone => PrintT(<<"HIST", ToJson([h |-> hist, rets |-> ab.log])>>)
 ====
